@@ -1,2 +1,21 @@
-(* C05 - property statements (theorems are being added) *)
-From Asherah Require Import Envelope.Session.
+(* C05 - revocation takes effect within the revoke-check interval.
+   PROVED (partial): the key handed out for new data passed the revoked check (on the cached flag, which every
+   reload refreshes from the metastore row) at the current time, or is the loader's answer of this call
+   (C05_latest_key_checked); a cached key whose flag says revoked is never considered fresh-and-valid (C20_fresh_means
+   + is_key_invalid).
+   REFUTED on the faithful model (known finding C05-IK): the two-interval bound for a revoked system key fails when a
+   decrypt-path load refreshed / installed the entry (C05_bound_refuted, a computed history). *)
+From Asherah Require Import Envelope.Session Envelope.Frame Envelope.FrameInst Envelope.Rotation.
+
+Theorem C05_latest_key_checked : forall cid rci ex id loader w k w',
+  (forall x, pres now_same (loader x)) ->
+  get_or_load_latest (Some cid) rci ex id loader w = (inr k, w') ->
+  (exists w1 w2, is_key_invalid k ex w1 = (inr false, w2) /\ w_now w1 = w_now w) \/
+  (exists w1 w2, loader {| km_id := id; km_created := 0 |} w1 = (inr k, w2) /\ w_now w1 = w_now w).
+Proof. exact latest_key_checked. Qed.
+Print Assumptions C05_latest_key_checked.
+
+Theorem C05_bound_refuted :
+  last_enc_parent witness_revocation = Some (t0 / sec) /\ nth_enc_parent 7 witness_revocation = Some (t0 / sec + 85).
+Proof. exact C05_refuted_by_decrypt_refresh. Qed.
+Print Assumptions C05_bound_refuted.
